@@ -870,7 +870,7 @@ class RoundTrip(Stream, Run):
             'import was attempted on a graph with at least 2 nodes and 1 edge; distinct by case value')
 
     def gen(self, rng, tier):
-        n_raw = 340 if tier == 'quick' else 9000
+        n_raw = 340 if tier == 'quick' else 5000
         out = []
         # both formats x four entry points on every profile, systematically first
         for fmt in range(2):
@@ -1035,7 +1035,7 @@ class TopoTrip(RoundTrip):
             'Topology.serialize/load); non-trivial = every case; distinct by case value')
 
     def gen(self, rng, tier):
-        n_topo = 32 if tier == 'quick' else 400
+        n_topo = 32 if tier == 'quick' else 240
         out = []
         for i in range(n_topo):
             try:
@@ -1069,7 +1069,7 @@ class DisjointTrip(RoundTrip):
         return NetworkXPropertyGraphDisjoint
 
     def gen(self, rng, tier):
-        n = 120 if tier == 'quick' else 4000
+        n = 120 if tier == 'quick' else 2400
         out = []
         for fmt in range(2):
             for ep in range(4):
